@@ -366,8 +366,140 @@ pub fn udp_strategy(max_datagrams: usize) -> impl Strategy<Value = UdpCase> {
     })
 }
 
+
+// ------------------------------------------------------------------ a send that the kernel refuses, then more writes
+/// The peer's port is closed for a moment (the application started before LFS): one datagram is lost, the ICMP answer makes the
+/// next send fail with ECONNREFUSED. When the peer is back, every further written packet must again leave as exactly one
+/// datagram holding exactly its frame - nothing of the refused packet may ride along.
+#[derive(Clone, Debug)]
+pub struct RefusedCase {
+    pub compressed: bool,
+    pub tokio: bool,
+    /// frames of the packets written while the port is closed / after it is open again
+    pub during: Vec<Vec<u8>>,
+    pub after: Vec<Vec<u8>>,
+}
+
+pub struct RefusedSend;
+impl Part for RefusedSend {
+    type Case = RefusedCase;
+    fn name(&self) -> &'static str {
+        "writes-after-a-refused-send"
+    }
+    fn check(&self, c: &RefusedCase, ev: &mut Local) -> Result<(), Fail> {
+        let mode = if c.compressed { Mode::Compressed } else { Mode::Uncompressed };
+        let pk = |f: &Vec<u8>| decode_one(f, &mode).ok().filter(|p| Codec::new(mode.clone()).encode(p).is_ok());
+        let during: Vec<insim::Packet> = c.during.iter().filter_map(pk).collect();
+        let after: Vec<insim::Packet> = c.after.iter().filter_map(pk).collect();
+        if after.is_empty() {
+            return Ok(());
+        }
+        let want: Vec<Vec<u8>> = after.iter().map(|p| Codec::new(mode.clone()).encode(p).unwrap().to_vec()).collect();
+        // returns (datagrams the re-opened peer received, how many writes failed while the port was closed)
+        let outcome: Result<Result<(Vec<Vec<u8>>, usize), String>, String> = if c.tokio {
+            let rt = tokio::runtime::Builder::new_current_thread().enable_all().build().expect("runtime");
+            guard(|| {
+                rt.block_on(async {
+                    let peer = tokio::net::UdpSocket::bind("127.0.0.1:0").await.map_err(|e| format!("env: {e}"))?;
+                    let addr = peer.local_addr().unwrap();
+                    let a = tokio::net::UdpSocket::bind("127.0.0.1:0").await.map_err(|e| format!("env: {e}"))?;
+                    a.connect(addr).await.map_err(|e| format!("env: {e}"))?;
+                    let mut framed = insim::net::tokio_impl::Framed::new(Box::new(insim::net::tokio_impl::UdpStream::from(a)), Codec::new(mode.clone()));
+                    drop(peer);
+                    let mut failed = 0;
+                    for p in &during {
+                        if framed.write(p.clone()).await.is_err() {
+                            failed += 1;
+                        }
+                        tokio::time::sleep(Duration::from_millis(2)).await;
+                    }
+                    let peer = tokio::net::UdpSocket::bind(addr).await.map_err(|e| format!("env: rebind: {e}"))?;
+                    for p in &after {
+                        // a stale ICMP error may still fail the first of these: retry once, as an application would
+                        if framed.write(p.clone()).await.is_err() {
+                            framed.write(p.clone()).await.map_err(|e| format!("write after the peer came back: {e}"))?;
+                        }
+                    }
+                    let mut got = vec![];
+                    let mut buf = [0u8; 2048];
+                    while got.len() < after.len() + 2 {
+                        match tokio::time::timeout(Duration::from_millis(100), peer.recv(&mut buf)).await {
+                            Ok(Ok(n)) => got.push(buf[..n].to_vec()),
+                            _ => break,
+                        }
+                    }
+                    Ok((got, failed))
+                })
+            })
+        } else {
+            guard(|| {
+                let peer = std::net::UdpSocket::bind("127.0.0.1:0").map_err(|e| format!("env: {e}"))?;
+                let addr = peer.local_addr().unwrap();
+                let a = std::net::UdpSocket::bind("127.0.0.1:0").map_err(|e| format!("env: {e}"))?;
+                a.connect(addr).map_err(|e| format!("env: {e}"))?;
+                let mut framed = insim::net::blocking_impl::Framed::new(Box::new(insim::net::blocking_impl::UdpStream::from(a)), Codec::new(mode.clone()));
+                drop(peer);
+                let mut failed = 0;
+                for p in &during {
+                    if framed.write(p.clone()).is_err() {
+                        failed += 1;
+                    }
+                    std::thread::sleep(Duration::from_millis(2));
+                }
+                let peer = std::net::UdpSocket::bind(addr).map_err(|e| format!("env: rebind: {e}"))?;
+                peer.set_read_timeout(Some(Duration::from_millis(100))).unwrap();
+                for p in &after {
+                    if framed.write(p.clone()).is_err() {
+                        framed.write(p.clone()).map_err(|e| format!("write after the peer came back: {e}"))?;
+                    }
+                }
+                let mut got = vec![];
+                let mut buf = [0u8; 2048];
+                while got.len() < after.len() + 2 {
+                    match peer.recv(&mut buf) {
+                        Ok(n) => got.push(buf[..n].to_vec()),
+                        Err(_) => break,
+                    }
+                }
+                Ok((got, failed))
+            })
+        };
+        let which = if c.tokio { "tokio" } else { "blocking" };
+        match outcome {
+            Err(p) => fail!("c08:panic", "{which}: {p}"),
+            Ok(Err(e)) if e.starts_with("env:") => {
+                ev.class("skipped: loopback socket could not be (re)bound");
+                return Ok(());
+            },
+            Ok(Err(e)) => fail!(format!("c08:{which}-write-not-one-datagram"), "{which}: {e}"),
+            Ok(Ok((got, failed))) => {
+                ensure!(
+                    got == want,
+                    format!("c08:{which}-write-not-one-datagram"),
+                    "{which} ({}): {} writes while the peer's port was closed ({failed} of them reported an error), then {} writes: the peer received {:?}, expected {:?}",
+                    mode_name(&mode),
+                    during.len(),
+                    after.len(),
+                    got.iter().map(|d| hex(&d[..d.len().min(24)])).collect::<Vec<_>>(),
+                    want.iter().map(|d| hex(&d[..d.len().min(24)])).collect::<Vec<_>>()
+                );
+                ev.nontrivial(&(c.compressed, c.tokio, &c.during, &c.after));
+                ev.class(if failed > 0 { "a send was refused (ECONNREFUSED)" } else { "no send was refused" });
+            },
+        }
+        Ok(())
+    }
+    fn to_json(&self, c: &RefusedCase) -> Value {
+        json!({"compressed": c.compressed, "tokio": c.tokio, "during": c.during.iter().map(|f| hex(f)).collect::<Vec<_>>(), "after": c.after.iter().map(|f| hex(f)).collect::<Vec<_>>()})
+    }
+    fn from_json(&self, v: &Value) -> Option<RefusedCase> {
+        let fr = |k: &str| -> Option<Vec<Vec<u8>>> { v.get(k)?.as_array()?.iter().map(|f| unhex(f.as_str()?)).collect() };
+        Some(RefusedCase { compressed: v.get("compressed")?.as_bool()?, tokio: v.get("tokio")?.as_bool()?, during: fr("during")?, after: fr("after")? })
+    }
+}
+
 pub fn parts() -> Vec<Box<dyn DynPart>> {
-    vec![Box::new(UdpSessions)]
+    vec![Box::new(UdpSessions), Box::new(RefusedSend)]
 }
 
 pub fn run(run: &mut Run) {
@@ -384,4 +516,17 @@ pub fn run(run: &mut Run) {
     run.prop(&UdpSessions, udp_strategy(120), n);
     let n = run.budget(100, 1_500);
     run.prop(&UdpSessions, udp_strategy(400), n);
+    let n = run.budget(60, 600);
+    run.prop(&RefusedSend, refused_strategy(), n);
+}
+
+pub fn refused_strategy() -> impl Strategy<Value = RefusedCase> {
+    let frame = || prop_oneof![
+        6 => (any::<usize>(), proptest::collection::vec(any::<u8>(), 0..300)).prop_map(|(k, t)| FrameSpec::Kind(k, t)),
+        1 => (1u8..30, any::<u8>()).prop_map(|(a, b)| FrameSpec::Tiny(a, b)),
+    ];
+    (any::<bool>(), any::<bool>(), proptest::collection::vec(frame(), 2..5), proptest::collection::vec(frame(), 1..5)).prop_map(|(compressed, tokio, during, after)| {
+        let mode = if compressed { Mode::Compressed } else { Mode::Uncompressed };
+        RefusedCase { compressed, tokio, during: during.iter().map(|f| frame_bytes(f, &mode)).collect(), after: after.iter().map(|f| frame_bytes(f, &mode)).collect() }
+    })
 }
